@@ -11,6 +11,11 @@ package ch
 //@ global ErrClosed: ErrClosed != nil
 //@ -- C12 (lock discipline only): the closed flag is read and written only while c.mux is held
 //@ guarded (Client) closed by mux
+//@ -- C12: the per-query counters that OpenTelemetry instrumentation shares between the goroutines of
+//@ -- Do through the context are read and written only while their mutex is held.  The deferred
+//@ -- span-closing function of Do (Do$2) reads them after errgroup.Wait has returned, i.e. when
+//@ -- no other goroutine of the query is left: exempt, listed as an assumption.
+//@ guarded (sharedQueryMetrics) queryMetrics by mu except (*Client).Do$2
 
 // ---------------------------------------------------------------------------
 // C04 / C10: closing, flushing a private buffer, cancelling
